@@ -94,8 +94,8 @@ def r3_consumers(ctx):
         r.check(callers == {ack_fn}, 'who|' + fn.split('::')[-1], '', 'callers of %s: %s' % (fn, sorted(callers)))
 
 
-def r4_local(ctx):
-    r = ctx.rule('C14.R4', 'WHO', 'local settings bind the peer only after its ACK: applied from recv_settings while WaitingAck; 3-state machine')
+def r4_local(ctx, rid='C14.R4', rid5='C14.R5'):
+    r = ctx.rule(rid, 'WHO', 'local settings bind the peer only after its ACK: applied from recv_settings while WaitingAck; 3-state machine')
     F = ctx.facts
     rs = r.fn(SET + '::recv_settings')
     if not rs:
@@ -109,9 +109,22 @@ def r4_local(ctx):
         for bi, t in rs.calls_to(callee):
             ok = bool(ack_edges) and bool(wa_edges) and rs.dominated_by_edges(bi, ack_edges) and rs.dominated_by_edges(bi, wa_edges)
             r.check(ok, 'guard|' + callee.split('::')[-1], rs.loc(bi), '%s only on is_ack && Local::WaitingAck' % callee.split('::')[-1])
+    # a SETTINGS frame is a delta: a parameter it does not carry leaves the limit in force unchanged
+    for callee, getter in (('codec::Codec::set_max_recv_frame_size', 'frame::settings::Settings::max_frame_size'),
+                           ('codec::Codec::set_max_recv_header_list_size', 'frame::settings::Settings::max_header_list_size'),
+                           ('codec::Codec::set_recv_header_table_size', 'frame::settings::Settings::header_table_size')):
+        for bi, t in rs.calls_to(callee):
+            e = rs.expr_of_op(t['a'][1])
+            present = any(x[0] == 'variant' and x[2] == 'Some' and core.contains_call(x[1], getter) for x in walk(e))
+            defaulted = any(x[0] == 'call' and x[1].rsplit('::', 1)[-1] in ('unwrap_or', 'unwrap_or_default', 'unwrap_or_else') for x in walk(e))
+            edges = core.guard_edges(F, rs, [getter], lambda l: l == frozenset(['Some']) or l is True)
+            ok = present and not defaulted and bool(edges) and rs.dominated_by_edges(bi, edges)
+            r.check(ok, 'delta|' + callee.split('::')[-1], rs.loc(bi),
+                    '%s(%s)%s' % (callee.split('::')[-1], core.show(e)[:70], ' only when the acknowledged SETTINGS carried the parameter' if ok else
+                                  ' — applied even when the acknowledged SETTINGS did not carry the parameter: a later partial SETTINGS (e.g. only INITIAL_WINDOW_SIZE) silently resets the limit while the old value is still advertised'))
     # R5: stray ack
     other_edges = core.edges_where(F, rs, lambda sw: sw.kind == 'variant' and sw.adt == 'proto::settings::Local', lambda l: isinstance(l, frozenset) and 'WaitingAck' not in l and len(l) > 0)
-    r5 = ctx.rule('C14.R5', 'TABLE', 'an ACK that answers nothing is a connection error PROTOCOL_ERROR')
+    r5 = ctx.rule(rid5, 'TABLE', 'an ACK that answers nothing is a connection error PROTOCOL_ERROR')
     ok = bool(other_edges)
     for (a, b) in other_edges:
         reach = rs.reachable([b])
@@ -228,6 +241,8 @@ def r7_no_loss(ctx, rid='C14.R7', table=None, floor=6):
 def run(ctx):
     C08.r1_slots(ctx, 'C14.R1')
     r7_no_loss(ctx)
+    from . import C15
+    C15.r4b_shutdown_ping(ctx, 'C14.R9')  # a PING ack answers only the PING it echoes
     C02.r5_settings_delta(ctx, 'C14.R8')
     C02.r5b_same_streams(ctx, 'C14.R8b')
     r2_ack_apply(ctx)
